@@ -100,12 +100,12 @@ def run(ctx, which):
                       invariants=['SliceRefines', 'PrefixRefines', 'NeverOverRead'], need_actions=['Step'], timeout=900)
     cases = export_layouts(ctx)
     ctx.notes['layouts_exported_by_tlc'] = len(cases)
-    cap = ctx.pick(6000, 35000 if which == 'C01' else 14000)      # C02 histories cost several times a C01 read in TLC
+    cap = ctx.pick(6000, 35000)
     if len(cases) > cap:
         rng = ctx.subrng('sample-exports')
         cases = rng.sample(cases, cap)
-    cases += random_cases(ctx, ctx.pick(120, 700 if which == 'C01' else 400), 0)
-    cases += random_cases(ctx, ctx.pick(12, 80 if which == 'C01' else 30), 40000)
+    cases += random_cases(ctx, ctx.pick(120, 700), 0)
+    cases += random_cases(ctx, ctx.pick(12, 80), 40000)
     rng = ctx.subrng('drive')
     sul_rng = ctx.subrng('sul')
     traces, recs_l, vm_l, sul_l, meta = [], [], [], [], []
